@@ -94,6 +94,8 @@ pub fn jobs(seed: u64, thorough: bool, bad_only: bool) -> Vec<Job> {
         out.push(Job { label: "box/f64".into(), raw, panic, own: OwnN::BoxU, tol: 1e-7 });
         let (raw, panic) = run_chain::<B32, f32, _>(BoxN, vec![0.3, 0.6], 0.8, sd + 13, &[(6, 0)], Some(0.15));
         out.push(Job { label: "box/f32".into(), raw, panic, own: OwnN::BoxU, tol: 5e-4 });
+        let (raw, panic) = run_chain::<B64, f64, _>(BoxLeafN, vec![0.3, 0.6], 0.8, sd + 14, &[(6, 2)], None);
+        out.push(Job { label: "boxleaf/f64".into(), raw, panic, own: OwnN::BoxU, tol: 1e-7 });
     }
     out
 }
